@@ -162,6 +162,27 @@ def run_case(ck, case, reqs, pending):
                 f"used {len(used)} internal {len(internal)} excluded-by-rule {len(excl_want)}", case)
         ck.case(case)
         return sc               # the restricted system is not the one the rule defines: nothing further to compare
+    # ---------------- the restricted system itself: every junction's row pair holds a coefficient for exactly the used interfaces ending
+    # there, and the junctions with a row pair are those (of three or more cells) where at least three used interfaces end
+    A0 = np.array(fm.matrix, dtype=float)
+    rowmap0 = {int(k): int(r) for k, r in fm.map_vid_to_row.items()}
+    cov = impl.cells_of_vertex(frame.cells)
+    ends_used = {}
+    for col, e in enumerate(used):
+        for v in {e[0], e[-1]}:
+            ends_used.setdefault(v, set()).add(col)
+    if A0.size and A0.shape[1] == len(used):
+        for v, r in rowmap0.items():
+            nz = {c for c in range(A0.shape[1]) if A0[r, c] != 0 or A0[r + 1, c] != 0}
+            if nz != ends_used.get(v, set()):
+                ck.fail("every other position holds the solution of the restricted system (each junction's equations contain exactly the "
+                        "remaining interfaces ending there)", f"junction {v}: coefficients in columns {sorted(nz)}, used interfaces ending there {sorted(ends_used.get(v, set()))}", case)
+                break
+        want_rows = {v for v, cs in ends_used.items() if len(cs) >= 3 and len(cov.get(v, ())) >= 3}
+        if set(rowmap0) != want_rows:
+            ck.fail("every other position holds the solution of the restricted system (one pair of equations per junction with three or "
+                    "more remaining interfaces)", f"missing {sorted(want_rows - set(rowmap0))[:4]} surplus {sorted(set(rowmap0) - want_rows)[:4]}", case)
+        ck.count("restricted_system_shape_checked")
     # ---------------- solve
     skw = {}
     if case["rhs"] == "velocity":
